@@ -28,6 +28,7 @@ EXPLANATION = ("Typestate analysis of ConcurrentCacher: (1) guards/effects of th
                "readers, no writer' on a finite abstract domain; (5) inner-cache reads happen under a read lock, population and "
                "removal under the write lock; (6) a failed population removes the entry; (7) callers use `with`.")
 EXPLANATION += ' R8: the lock-slot index is a fixed digest of the key with no process-local source.'
+EXPLANATION += ' R2 also: release / switch helpers are applied only while the thread holds that lock.'
 
 CCH = "coba/context/cachers.py"
 HELPERS = ("_acquire_read_lock", "_release_read_lock", "_acquire_write_lock", "_release_write_lock", "_switch_write_to_read_lock")
